@@ -14,7 +14,7 @@ func init() {
 		Run:   checkC12,
 		Explanation: "Decides, for all thresholds and result sequences, the counting discipline the property describes: (R1) every HealthChecker.Check call receives the context returned by context.WithTimeout(_, 100ms); (R2) the threshold is MaxConsecutiveFailures if positive, else 3; " +
 			"(R3) on an unhealthy result the counter is incremented by exactly 1, the non-strict comparison count >= threshold leads to the health demotion and the loop's return, its negation to the next tick without any store operation; a healthy result resets the counter to 0; " +
-			"(R4) the counter is reset at the start of every term (in the claim-set unit, in the loop prologue, or it is a local of the loop); (R5) the health demotion goes through the demotion wrapper (OnDemote exactly once: C08); (R6) the loop that runs the checks belongs to one term (C03-R9, shared): no loop of an earlier term counts into a later term's counter.",
+			"(R4) the counter is reset at the start of every term (in the claim-set unit, in the loop prologue, or it is a local of the loop); (R5) the health demotion goes through the demotion wrapper (OnDemote exactly once: C08); (R6) the loop that runs the checks belongs to one term (C03-R9, shared): no loop of an earlier term counts into a later term's counter; (R7, R8) a loop that notices the end of its term late - its check outlasted the term - neither demotes a later term nor counts its stale result there.",
 		NotDecided: []string{"that a slow checker which ignores its context does not delay the tick (runtime)", "re-election after a health demotion (C06)"},
 		Assumptions: []string{"context.WithTimeout semantics"},
 		Rules: map[string]string{
@@ -24,6 +24,9 @@ func init() {
 			"R6": "shared with C03-R9: the loop that runs the health check runs under the term context (no loop of an earlier term counts failures into a later term)",
 			"R4": "counter.Store(0) in a claim-set unit under the election mutex, or in a block of the refresh loop function that is not in the loop",
 			"R5": "see C08-R2/R3 (the health demotion is a call of a may-demote function)",
+			"R9": "no Load / Add / CompareAndSwap of the health counter outside the refresh loop unit (Store(0) at the start of a term is R4)",
+			"R7": "shared with C07-R9: every may-demote call of the loop passes the loop's own context to a term-bound demotion (a function whose claim clear is decided by `termCtx field == that parameter`)",
+			"R8": "an If on ctx.Err() == nil (ctx = the loop's context parameter) that is dominated by the Check call guards the counter increment",
 		},
 	})
 }
@@ -200,8 +203,84 @@ func checkC12(c *Ctx) {
 			}
 		}
 	})
+	// R9: the count is the health mechanism's own: nothing outside the refresh loop reads it. A
+	// demoted instance keeps the count it was demoted with (it is reset by a healthy check of a
+	// LEADER and at the start of a term): anything else that consults it - an acquisition gate,
+	// a watcher - sees "unhealthy" for ever and the instance can never be re-elected.
+	{
+		unit := m.unitFns(rf)
+		nOut := 0
+		for _, f := range m.Funcs {
+			if containsFn(unit, f) || containsFn(unit, topFunc(f)) {
+				continue
+			}
+			eachInstr(f, func(in ssa.Instruction) {
+				call, ok := in.(*ssa.Call)
+				if !ok {
+					return
+				}
+				if fld, meth, ok := m.atomicCall(call); ok && fld == m.HealthCounter && meth != "Store" {
+					nOut++
+					c.viol("R9", "health count read outside the refresh loop in "+shortFn(f), call, "%s.%s(): the count survives a health demotion (only a leader's healthy check or a new term resets it), so a reader outside the leader's refresh loop sees the threshold reached for as long as the instance is a follower: it continues as a follower but can never be re-elected", m.path(m.HealthCounter), meth)
+				}
+			})
+		}
+		if nOut == 0 {
+			c.ok("R9", "health count is read by the refresh loop only", add, "no Load/Add/CompareAndSwap of %s outside %s and the functions it is split into", m.path(m.HealthCounter), shortFn(rf))
+		}
+	}
 	// R6: shared with C03-R9: no loop of an earlier term counts into this term's counter
 	termLoopRule(c, "R6")
+	// R7: shared with C07-R9: the health demotion (like every demotion the loop issues) is bound to the loop's term
+	termBoundDemotionRule(c, "R7")
+	// R8: a result that arrives after the loop's term has ended is not counted: between the return of
+	// Check and the increment the loop's context is tested
+	{
+		var check *ssa.Call
+		eachBody(func(in ssa.Instruction) {
+			if call, ok := in.(*ssa.Call); ok && call.Call.IsInvoke() && call.Call.Method.Name() == "Check" && namedOf(call.Call.Value.Type()) != nil && namedOf(call.Call.Value.Type()).Obj().Name() == "HealthChecker" {
+				check = call
+			}
+		})
+		tested := false
+		if check != nil {
+			// an If on ctx.Err() == nil that lies between the check and the increment (dominance), the
+			// increment being on its "still live" side
+			live := func(l Lit) bool {
+				if l.S.Op != "bin" || l.S.Name != "==" || !symMentions(l.S, "Context.Err(") || !symMentions(l.S, "nil") {
+					return false
+				}
+				for _, a := range l.S.Args {
+					if a.Op == "invoke" && len(a.Args) == 1 && a.Args[0].V != nil {
+						stopAtLoop := func(v ssa.Value) bool {
+							p, ok := v.(*ssa.Parameter)
+							return ok && p.Parent() == rf
+						}
+						if stopAtLoop(m.traceValueUntil(a.Args[0].V, stopAtLoop)) {
+							return true
+						}
+					}
+				}
+				return false
+			}
+			onLiveSide := false
+			for _, l := range m.unitGuards(rf, add) {
+				if l.Truth && live(l) {
+					onLiveSide = true
+				}
+			}
+			eachBody(func(in ssa.Instruction) {
+				ifi, ok := in.(*ssa.If)
+				if !ok || !live(m.litOf(ifi.Cond, true, ifi)) {
+					return
+				}
+				if m.dominatesLifted(rf, check, ifi) && m.dominatesLifted(rf, ifi, add) {
+					tested = onLiveSide
+				}
+			})
+		}
+		c.check(tested, "R8", "a result that outlasted the term is not counted", add, "between the return of HealthChecker.Check and the increment of %s the loop tests its own context (ctx.Err() == nil): %v. A checker that ignores its context can return after the term has ended and the instance has been re-elected: its result would be counted against the new term (with threshold 1 the new term is demoted by a check it never made).", m.path(m.HealthCounter), tested)
+	}
 	if perTerm != "" {
 		c.ok("R4", "health failures are counted per term", add, "%s", perTerm)
 	} else {
